@@ -368,3 +368,5 @@ PROPS["C17"]["must_reach"]["quick"] = PROPS["C17"]["must_reach"]["quick"] + ["cr
 PROPS["C04"]["must_reach"]["quick"] = PROPS["C04"]["must_reach"]["quick"] + ["run_started_with_recovery", "pcrash_in_compaction_window"]
 PROPS["C09"]["must_reach"]["quick"] = PROPS["C09"]["must_reach"]["quick"] + ["power_loss_after_close_of_concurrent_session"]
 PROPS["C15"]["must_reach"]["quick"] = PROPS["C15"]["must_reach"]["quick"] + ["bg_worker_compaction_refused_busy", "tick"]
+PROPS["C10"]["must_reach"]["quick"] = PROPS["C10"]["must_reach"]["quick"] + ["race_run_cold_start"]
+PROPS["C01"]["must_reach"]["quick"] = PROPS["C01"]["must_reach"]["quick"] + ["bucket_with_successors_emptied"]
